@@ -16,10 +16,10 @@ SUITE_BAD=$(grep -E "^FAIL[[:space:]]+github" $LOG | grep -v cloudwatch | wc -l)
 cp $DEMOS "$PKG"/
 echo "== demo with change" >>$LOG
 NAMES=$(grep -ho "^func Test[A-Za-z0-9_]*" $DEMOS | sed 's/func //' | paste -sd'|')
-go test -vet=off -count=1 -run "^($NAMES)\$" "./$PKG/" >>$LOG 2>&1; RC_MUT=$?
+go test $CONFIRM_TAGS -vet=off -count=1 -run "^($NAMES)\$" "./$PKG/" >>$LOG 2>&1; RC_MUT=$?
 git checkout -q -- . ; for d in $DEMOS; do cp "$d" "$PKG"/; done
 echo "== demo without change" >>$LOG
-go test -vet=off -count=1 -run "^($NAMES)\$" "./$PKG/" >>$LOG 2>&1; RC_CLEAN=$?
+go test $CONFIRM_TAGS -vet=off -count=1 -run "^($NAMES)\$" "./$PKG/" >>$LOG 2>&1; RC_CLEAN=$?
 git checkout -q -- . ; git clean -fdq
 echo "suite_bad=$SUITE_BAD demo_with_change_rc=$RC_MUT demo_clean_rc=$RC_CLEAN"
 if [ "$SUITE_BAD" = 0 ] && [ "$RC_MUT" != 0 ] && [ "$RC_CLEAN" = 0 ]; then
